@@ -175,6 +175,17 @@ func (u *UserHash) writeHashStr(password string, isAdmin bool, mayCreate bool) e
 	}
 	defer file.Close() //nolint:errcheck
 
+	// If we have just created the (still empty) file and fail later on, don't leave it behind:
+	// it would make the user exist with an unsupported hash.
+	moved := false
+	if mayCreate {
+		defer func() {
+			if !moved {
+				os.Remove(file.Name()) //nolint:errcheck
+			}
+		}()
+	}
+
 	tmp, err := u.store.getTempFile()
 	if err != nil {
 		return err
@@ -206,13 +217,21 @@ func (u *UserHash) writeHashStr(password string, isAdmin bool, mayCreate bool) e
 		return err
 	}
 
+	// Open the directory before the move, so this can't fail after the change is in place
+	dir, err := os.Open(filepath.Dir(file.Name()))
+	if err != nil {
+		return err
+	}
+	defer dir.Close() //nolint:errcheck
+
 	// Atomically move the new file in place
 	if err := os.Rename(tmp.Name(), file.Name()); err != nil {
 		return err
 	}
+	moved = true
 
 	// Flush the move to disk
-	return syncDir(filepath.Dir(file.Name()))
+	return dir.Sync()
 }
 
 // syncDir flushes changes to the entries of the directory at path (create, rename, unlink) to disk
@@ -274,11 +293,17 @@ func (u *UserHash) SetAdmin(adminState bool) error {
 		oldname += adminExt
 		newname += userExt
 	}
+	// Open the directory before the move, so this can't fail after the change is in place
+	dir, err := os.Open(u.store.BaseDir)
+	if err != nil {
+		return err
+	}
+	defer dir.Close() //nolint:errcheck
 	if err := os.Rename(oldname, newname); err != nil {
 		return err
 	}
 	// Flush the move to disk
-	return syncDir(u.store.BaseDir)
+	return dir.Sync()
 }
 
 // Remove deletes hash file.
